@@ -1176,7 +1176,9 @@ def _run_case(sim, case, acc):
             if rng.chance(0.5):
                 img = bytes(rng.below(256) for _ in range(n))
                 argv = ["-cpu", cpu, "-binfile", "/w/i.bin@%s" % rng.choice(["0", "$100", "0xfff0", "$ffffffff", "-1", "x"]),
-                        "-entryaddress", rng.choice(["0", "$100", "0xfff8", "$ffffffff", "x", "0,1,2"])]
+                        "-entryaddress", rng.choice(["0", "$100", "0xfff8", "$ffffffff", "x", "0,1,2", "(0,1)", "(0,2),reset", "(%d,1),last" % max(n - 1, 0),
+                                                     "(%d,2),v" % max(n - 2, 0), "(%d,2,lsb)" % max(n - 1, 0), "(0,8,msb),big", "(0,9)", "(,)", "(0", "(0,2,xsb)",
+                                                     "(%d,1)" % n, "(0,0)", "(0,2),", "()", "($100,2),r", "(0xfff8,2,lsb),vec"])]
                 disk = {"/w/i.bin": img}
             else:
                 # a plausible Intel-hex or S-record text with random damage
